@@ -22,21 +22,29 @@
                                                           the future is computed by the executor model (Exec.v) from the
                                                           kind of the future; tmo 1: the environment let 16 s pass with
                                                           this future in flight (the oracle demands that it is gone)
-         | 14 q uctag qtag qn rk t0..t31 | 15 q qtag qn rk ngiven p* | 16 rk | 17 p addr     (mode 1: command with
-                                                          its 256-bit target key, put_record_to_peers with the GIVEN
-                                                          peers, store_record, add_known_peer)
-         | 19 id rtag [rk] [t0..t31 | valid]              (mode 1) the read future of inbound substream id delivers a
-                                                          request: rtag 0 FIND_NODE rk target, 1 PUT_VALUE rk,
-                                                          2 GET_VALUE rk target, 3 GET_PROVIDERS rk target, 4 ADD_PROVIDER valid
-         | 20 rk | 21 q rk t0..t31                        (mode 1) stop_providing; a refresh timer of the store fires
+         | 14 q uctag qtag qn rk len expc t0..t31        (mode 1) command with its 256-bit target key; uctag 0 find_node,
+                                                          1 put_record (value length len, expiry expc: 0 none, n + 1 =
+                                                          n ticks from now), 2 start_providing, 3 get_record, 4 get_providers
+         | 15 q qtag qn rk len pub expc upd ngiven p*     (mode 1) put_record_to_peers with the GIVEN peers; publisher
+                                                          code pub, update_local_store upd
+         | 16 rk len pub expc | 17 p addr                 (mode 1) store_record, add_known_peer
+         | 19 id rtag ...                                 (mode 1) the read future of inbound substream id delivers a
+                                                          request: rtag 0 FIND_NODE rk target, 1 PUT_VALUE rk len pub ttl,
+                                                          2 GET_VALUE rk target, 3 GET_PROVIDERS rk target,
+                                                          4 ADD_PROVIDER rk nprov (peer naddr decodes)* target
+         | 20 rk t0..t31 | 21 q rk wait t0..t31 | 22 d    (mode 1) stop_providing; `wait` ticks pass and a completed refresh
+                                                          future of key rk is taken; d ticks pass (one tick = 10 s; the
+                                                          store's clock, its refresh futures, record and provider expiry)
          mode bits: 0 composed, 1 zero peer timeout, 2 RoutingTableUpdateMode::Manual,
                     3 IncomingRecordValidationMode::Manual
    msg   = 0 npeers p* | 1 | 2 haskey recflag recid npeers p* | 3 valid
          | 4 haskey nprov (peer naddr addr* )* npeers p* | 5
    trace = 1 group*     one group per event of `select!` (the event, then the drain that follows)
            (2 ... on a bounded event channel, 3 ... in composed mode: the group is followed by the
-            non-empty k-buckets, the stored record keys, the provided keys, the number of armed refresh
-            timers and the replies written to inbound substreams, see dump_w / flush_c)
+            non-empty k-buckets, the records of the store (key, value code, length, expiry relative to the
+            clock), the provider records per key in stored order (peer, addresses, expiry), local_providers
+            with the stored quorum, the number of refresh futures, and the replies written to inbound
+            substreams (record attached, closer peers, providers), see dump_w / flush_c)
    group = ok nouts out* dump
    out   = 0 q n p* | 1 q | 2 q | 3 q | 4 q n (peer naddr addr* )* | 5 q | 6 q p r | 7 n p* | 8 | 9 | 10 q n p*
    dump  = ndials (p nacts (kind q)* )*  npeers (p nacts (sid kind q)* )*  nsubs (sid p)*  nfuts
@@ -47,7 +55,7 @@
 From Coq Require Import List NArith Bool.
 From V.gen Require Consts.
 From V.common Require Import Wire.
-From V.C16 Require Import Model Compose Exec.
+From V.C16 Require Import Model Compose Exec HandleModel.
 Import ListNotations.
 Open Scope N_scope.
 
@@ -117,7 +125,7 @@ Definition p_ev (tag : N) : parser ev :=
          | 1 => pret (ECmd q (CPutRecord qr) dists seeds)
          | 2 => pret (ECmd q (CStartProviding qr) dists seeds)
          | 3 => pret (ECmd q (CGetRecord qr local) dists seeds)
-         | 4 => pret (ECmd q CGetProviders dists seeds)
+         | 4 => pret (ECmd q (CGetProviders []) dists seeds)
          | 5 => pret (ECmd q (CRefresh qr) dists seeds)
          | _ => pfail
          end
@@ -160,14 +168,18 @@ Definition byte_bits (b : N) : list bool :=
 Definition p_key : parser key :=
   let* bytes := prep 32 pN in pret (flat_map byte_bits bytes).
 
+Definition dec_exp (c : N) : option N := if c =? 0 then None else Some (c - 1).
+Definition p_prov3 : parser (N * N * N) :=
+  let* p := pN in let* na := pN in let* v := pN in pret (p, na, v).
+
 Definition p_inreq : parser inreq :=
   let* tag := pN in
   match tag with
   | 0 => let* _ := pN in let* t := p_key in pret (IFindNode t)
-  | 1 => let* rk := pN in pret (IPutValue rk)
+  | 1 => let* rk := pN in let* len := pN in let* pb := pN in let* ttl := pN in pret (IPutValue rk len pb ttl)
   | 2 => let* rk := pN in let* t := p_key in pret (IGetValue rk t)
-  | 3 => let* _ := pN in let* t := p_key in pret (IGetProviders t)
-  | 4 => let* v := pBool in pret (IAddProvider v)
+  | 3 => let* rk := pN in let* t := p_key in pret (IGetProviders rk t)
+  | 4 => let* rk := pN in let* pv := plist p_prov3 in let* t := p_key in pret (IAddProvider rk pv t)
   | _ => pfail
   end.
 
@@ -176,22 +188,26 @@ Definition p_uev : parser guev :=
   match tag with
   | 12 => let* f := p_futb in pret (GUFut f)
   | 19 => let* id := pN in let* rq := p_inreq in pret (GU (UInReq id rq))
-  | 20 => let* rk := pN in pret (GU (UStopProviding rk))
-  | 21 => let* q := pN in let* rk := pN in let* t := p_key in pret (GU (UFire q rk t))
+  | 20 => let* rk := pN in let* t := p_key in pret (GU (UStopProviding rk t))
+  | 21 => let* q := pN in let* rk := pN in let* wt := pN in let* t := p_key in pret (GU (UFire q rk wt t))
+  | 22 => let* d := pN in pret (GU (UAge d))
   | 14 => let* q := pN in let* uc := pN in let* qtag := pN in let* qn := pN in let* rk := pN in
+          let* len := pN in let* ec := pN in
           let* target := p_key in
           let qr := quorum_of qtag qn in
           match uc with
           | 0 => pret (GU (UCmd q UCFind target))
-          | 1 => pret (GU (UCmd q (UCPut qr rk) target))
+          | 1 => pret (GU (UCmd q (UCPut qr rk len (dec_exp ec)) target))
           | 2 => pret (GU (UCmd q (UCProv qr rk) target))
           | 3 => pret (GU (UCmd q (UCGet qr rk) target))
-          | 4 => pret (GU (UCmd q UCGetProv target))
+          | 4 => pret (GU (UCmd q (UCGetProv rk) target))
           | _ => pfail
           end
-  | 15 => let* q := pN in let* qtag := pN in let* qn := pN in let* rk := pN in let* ps := plist pN in
-          pret (GU (UPutToPeers q (quorum_of qtag qn) rk ps))
-  | 16 => let* rk := pN in pret (GU (UStoreRecord rk))
+  | 15 => let* q := pN in let* qtag := pN in let* qn := pN in let* rk := pN in
+          let* len := pN in let* pb := pN in let* ec := pN in let* upd := pBool in let* ps := plist pN in
+          pret (GU (UPutToPeers q (quorum_of qtag qn) rk len pb (dec_exp ec) upd ps))
+  | 16 => let* rk := pN in let* len := pN in let* pb := pN in let* ec := pN in
+          pret (GU (UStoreRecord rk len pb (dec_exp ec)))
   | 17 => let* p := pN in let* a := pBool in pret (GU (UAddKnownPeer p a))
   | _ => let* e := p_ev tag in pret (GU (UEv e))
   end.
@@ -335,17 +351,36 @@ Fixpoint rt_rows (keys : list (N * key)) (i : nat) (t : table) : list (list N) :
              :: rt_rows keys (S i) r
       end
   end.
+(* expiry relative to the clock: [2;0] none, [0; now - t] expired, [1; t - now] fresh *)
+Definition enc_rel (now : N) (e : option N) : list N :=
+  match e with
+  | None => [2; 0]
+  | Some t => if t <=? now then [0; now - t] else [1; t - now]
+  end.
+Definition enc_srec (now : N) (r : V.C17.Model.record) : list N :=
+  [V.C17.Model.r_key r; V.C17.Model.r_val r; V.C17.Model.r_len r] ++ enc_rel now (V.C17.Model.r_exp r).
+Definition enc_sprov (wc : wcfg) (now : N) (p : V.C17.Model.prov) : list N :=
+  [peer_of_pid wc (V.C17.Model.p_id p); V.C17.Model.p_naddr p] ++ enc_rel now (Some (V.C17.Model.p_exp p)).
+Definition dump_store (wc : wcfg) (w : world) : list N :=
+  let s := w_store w in
+  let now := w_clock w in
+  enc_list (enc_srec now) (sort_by V.C17.Model.r_key (V.C17.Model.recs s)) ++
+  enc_list (fun kp : N * list V.C17.Model.prov => fst kp :: enc_list (enc_sprov wc now) (snd kp))
+           (sort_key (V.C17.Model.pkeys s)) ++
+  enc_list (fun x : N * N => [fst x; snd x]) (sort_key (w_quorum w)) ++
+  [N.of_nat (length (w_timers w))].
+
 Definition dump_w (wc : wcfg) (w : world) : list N :=
-  dump (w_st w) ++ enc_list (fun r : list N => r) (rt_rows (wc_keys wc) 0 (w_rt w)) ++
-  enc_ns (sortN (map V.C17.Model.r_key (V.C17.Model.recs (w_store w)))) ++
-  enc_ns (sortN (map fst (w_prov w))) ++ [N.of_nat (length (w_timers w))].
+  dump (w_st w) ++ enc_list (fun r : list N => r) (rt_rows (wc_keys wc) 0 (w_rt w)) ++ dump_store wc w.
 
-Definition enc_reply (r : bool * list N) : list N := b2n (fst r) :: enc_ns (snd r).
+Definition enc_reply (r : bool * list N * list (N * N)) : list N :=
+  b2n (fst (fst r)) :: enc_ns (snd (fst r)) ++ enc_list (fun x : N * N => [fst x; snd x]) (snd r).
 
-(* composed group = ok, nouts, the outs, dump, rtdump, storedump, provkeys, ntimers, nreplies, then per
-   reply: found npeers peers (the replies the node wrote to inbound substreams while handling the
-   event of the group) *)
-Definition flush_c (wc : wcfg) (w : world) (ok : bool) (outs : list out) (reps : list (bool * list N)) : list N :=
+(* composed group = ok, nouts, the outs, dump, rtdump, storedump, nreplies, then per reply: found, the closer
+   peers, the providers (the replies the node wrote to inbound substreams while handling the event of the
+   group) *)
+Definition flush_c (wc : wcfg) (w : world) (ok : bool) (outs : list out)
+           (reps : list (bool * list N * list (N * N))) : list N :=
   b2n (ok && quiescent (w_st w)) :: enc_list enc_out outs ++ dump_w wc w ++ enc_list enc_reply reps.
 
 Definition uev_serve (u : uev) : bool := match u with UEv e => is_serve e | _ => false end.
@@ -353,35 +388,54 @@ Definition uev_tick (u : uev) : bool := match u with UEv e => is_tick e | _ => f
 
 Definition opt_list {A} (o : option A) : list A := match o with Some x => [x] | None => [] end.
 
+(* the executor timeouts in ticks of the store's clock: the environment lets TMO_TICKS pass when it plays
+   a blocking or silent substream *)
+Definition TMO_TICKS : N := 2.
+
+(* time passing inside an event of the environment (no event of `select!`, no group) *)
+Definition silent_age (wc : wcfg) (w : world) (x : guev) : world :=
+  match x with
+  | GUFut f => if fb_tmo f then fst (fst (cstep wc w (UAge TMO_TICKS))) else w
+  | GU _ => w
+  end.
+
 Fixpoint run_groups_c (wc : wcfg) (w : world) (open : bool) (ok : bool) (outs : list out)
-         (reps : list (bool * list N)) (us : list guev) : list N :=
+         (reps : list (bool * list N * list (N * N))) (us : list guev) : list N :=
   match us with
   | [] => if open then flush_c wc w ok outs reps else []
   | x :: t =>
-      let u := res_u (w_st w) x in
-      let '(w1, o, f) := cstep wc w u in
+      let wa := silent_age wc w x in
+      let u := res_u (w_st wa) x in
+      let '(w1, o, f) := cstep wc wa u in
       if uev_tick u then run_groups_c wc w1 open ok outs reps t
       else if uev_serve u then run_groups_c wc w1 open (ok && f) (outs ++ o) reps t
       else (if open then flush_c wc w ok outs reps else []) ++
-           run_groups_c wc w1 true f o (opt_list (reply_of wc w u)) t
+           run_groups_c wc w1 true f o (opt_list (reply_of wc wa u)) t
   end.
 
 (* the peer labels of the case: every label with a key, but the local one *)
 Definition pool_of (k : case) : list N :=
   filter (fun p => negb (p =? g_local (k_g k))) (map fst (k_keys k)).
+(* the configuration the harness builds the node with, in ticks of 10 s: provider ttl 2500 s, record ttl
+   3000 s, refresh interval 1000 s, records of 4 bytes and more are refused, at most 6 records *)
+Definition C_PROVIDER_TTL : N := 250.
+Definition C_RECORD_TTL : N := 300.
+Definition C_REFRESH : N := 100.
+Definition C_MAX_RECORD_SIZE : N := 4.
+Definition C_MAX_RECORDS : N := 6.
 Definition wcfg_of (k : case) : wcfg :=
   mkWC (k_g k) (k_keys k) (pool_of k) 20
-       (V.C17.Model.mkCfg V.gen.Consts.DEFAULT_MAX_RECORDS V.gen.Consts.DEFAULT_MAX_RECORD_SIZE_BYTES
+       (V.C17.Model.mkCfg C_MAX_RECORDS C_MAX_RECORD_SIZE
                           V.gen.Consts.DEFAULT_MAX_PROVIDER_KEYS V.gen.Consts.DEFAULT_MAX_PROVIDER_ADDRESSES
-                          V.gen.Consts.DEFAULT_MAX_PROVIDERS_PER_KEY 1000000)
-       BIG (negb (N.testbit (k_mode k) 2)) (negb (N.testbit (k_mode k) 3)).
+                          V.gen.Consts.DEFAULT_MAX_PROVIDERS_PER_KEY C_PROVIDER_TTL)
+       C_RECORD_TTL (negb (N.testbit (k_mode k) 2)) (negb (N.testbit (k_mode k) 3)) C_REFRESH 0.
 
 (* the peers added to the routing table before the first event *)
 Definition world0 (k : case) : world :=
   let wc := wcfg_of k in
   fold_left (fun w p => fst (fst (cstep wc w (UAddKnownPeer p true)))) (k_known k) (w0 wc (k_mgr k) 256).
 
-Definition run_case (l : list N) : list N :=
+Definition run_case1 (l : list N) : list N :=
   match decode_case l with
   | Some k =>
       if negb (match k_keys k with [] => true | _ => false end)
@@ -650,11 +704,18 @@ Definition prop_ok_u (es : list ev) (tm : list bool) (grs : list group) : bool :
 
 (* composed traces: the group carries the routing-table and store dumps after the glue dump *)
 Definition p_rt_row : parser unit := let* _ := pN in let* _ := plist p_triple in pret tt.
-Definition p_reply : parser unit := let* _ := pN in let* _ := plist pN in pret tt.
+Definition p_reply : parser unit := let* _ := pN in let* _ := plist pN in let* _ := plist p_pair in pret tt.
+Definition p_five : parser unit :=
+  let* _ := pN in let* _ := pN in let* _ := pN in let* _ := pN in let* _ := pN in pret tt.
+Definition p_four : parser unit :=
+  let* _ := pN in let* _ := pN in let* _ := pN in let* _ := pN in pret tt.
 Definition p_group_c : parser group :=
   let* ok := pBool in let* outs := plist p_out in let* d := p_dump in
-  let* _ := plist p_rt_row in let* _ := plist pN in
-  let* _ := plist pN in let* _ := pN in let* _ := plist p_reply in pret (mkGroup ok outs d).
+  let* _ := plist p_rt_row in
+  let* _ := plist p_five in
+  let* _ := plist (let* _ := pN in let* _ := plist p_four in pret tt) in
+  let* _ := plist p_pair in let* _ := pN in
+  let* _ := plist p_reply in pret (mkGroup ok outs d).
 Fixpoint p_groups_c (fuel : nat) : parser (list group) :=
   fun l =>
     match l with
@@ -681,19 +742,19 @@ Fixpoint skeletons (prov : list (N * quorum)) (us : list guev) : list ev :=
   | GU u :: t =>
       match u with
       | UCmd q UCFind _ => ECmd q CFindNode [] [] :: skeletons prov t
-      | UCmd q (UCPut qr _) _ => ECmd q (CPutRecord qr) [] [] :: skeletons prov t
+      | UCmd q (UCPut qr _ _ _) _ => ECmd q (CPutRecord qr) [] [] :: skeletons prov t
       | UCmd q (UCProv qr rk) _ => ECmd q (CStartProviding qr) [] [] :: skeletons (aset rk qr prov) t
       | UCmd q (UCGet qr _) _ => ECmd q (CGetRecord qr false) [] [] :: skeletons prov t
-      | UCmd q UCGetProv _ => ECmd q CGetProviders [] [] :: skeletons prov t
-      | UPutToPeers q qr _ ps => EPutToPeers q qr ps :: skeletons prov t
-      | UStoreRecord _ | UAddKnownPeer _ _ => ENop :: skeletons prov t
-      | UStopProviding rk => ENop :: skeletons (adel rk prov) t
-      | UFire q rk _ =>
+      | UCmd q (UCGetProv _) _ => ECmd q (CGetProviders []) [] [] :: skeletons prov t
+      | UPutToPeers q qr _ _ _ _ _ ps => EPutToPeers q qr ps :: skeletons prov t
+      | UStoreRecord _ _ _ _ | UAddKnownPeer _ _ | UAge _ => ENop :: skeletons prov t
+      | UStopProviding rk _ => ENop :: skeletons (adel rk prov) t
+      | UFire q rk _ _ =>
           match aget rk prov with
           | Some qr => ECmd q (CRefresh qr) [] []
           | None => ENop
           end :: skeletons prov t
-      | UInReq id rq => EFut id (RRead (msg_of_req rq)) :: skeletons prov t
+      | UInReq id rq => EFut id (RRead MPutValue) :: skeletons prov t
       | UEv e => e :: skeletons prov t
       end
   end.
@@ -705,7 +766,7 @@ Definition user_events (us : list guev) : list uev :=
 Definition named (us : list uev) (grs : list group) : bool :=
   let outs := flat_map gr_outs grs in
   forallb (fun u => match u with
-                    | UPutToPeers q _ _ given =>
+                    | UPutToPeers q _ _ _ _ _ _ given =>
                         match find_track q outs with
                         | Some targets => forallb (fun p => nmem p given) targets
                         | None => true
@@ -713,7 +774,223 @@ Definition named (us : list uev) (grs : list group) : bool :=
                     | _ => true
                     end) us.
 
-Definition prop_ok (c t : list N) : bool :=
+(* ================================================================================================
+   Fourth stream (cases starting with HANDLE_TAG): the KademliaHandle in front of the loop.
+   case  = HANDLE_TAG ccap l0..l31 nops op*      (ccap: slots of the command channel; l: key of the local peer)
+   op    = 0 tr kind args   a method is called: tr 1 = the try_ variant; kind = the command it sends
+                            0 add_known_peer p addr | 1 find_node seed t0..t31 | 2 put_record rk len expc qtag qn t
+                            | 3 put_record_to_peers rk len pub expc qtag qn upd npeers p*
+                            | 4 get_record rk qtag qn t | 5 get_providers rk t | 6 start_providing rk qtag qn t
+                            | 7 stop_providing rk t | 8 store_record rk len pub expc
+         | 1               the loop is polled: it takes every command in the channel, one per select! iteration
+         | 2               the task of a waiting async method runs
+         | 3               the user receives one event
+         | 4 rk wait t     `wait` ticks pass and the refresh future of key rk is taken (id from the shared counter)
+         | 5               the loop ends (its future is dropped): the command channel is closed
+   trace = 4 (per op)  call: code q    0 Err, 1 Ok(()), 2 Ok(id q), 3 suspended in send().await
+                       poll: ntaken storedump        wake: 0 | 1 code q
+                       recv: 0 | 1 out               fire: q storedump       kill: 7
+   The node has an empty routing table: every operation ends in the drain that follows its command.
+   ================================================================================================ *)
+Definition HANDLE_TAG : N := 1000016.
+
+Inductive hgop := GCall (tr : bool) (b : hbody) | GPoll | GWake | GRecv | GFire (rk wait : N) (t : key) | GKill.
+Record hcase := mkHC { hc_cap : N; hc_lkey : key; hc_ops : list hgop }.
+
+Definition hq_of (qtag qn : N) : hquorum :=
+  match qtag with 0 => HAll | 1 => HOne | _ => HN (N.succ_pos (qn - 1)) end.
+
+Definition p_hbody : parser hbody :=
+  let* kind := pN in
+  match kind with
+  | 0 => let* p := pN in let* a := pBool in pret (BAddKnownPeer p a)
+  | 1 => let* _ := pN in let* t := p_key in pret (BFindNode t)
+  | 2 => let* rk := pN in let* len := pN in let* ec := pN in let* qtag := pN in let* qn := pN in let* t := p_key in
+         pret (BPutRecord rk len (dec_exp ec) t (hq_of qtag qn))
+  | 3 => let* rk := pN in let* len := pN in let* pb := pN in let* ec := pN in let* qtag := pN in let* qn := pN in
+         let* upd := pBool in let* ps := plist pN in
+         pret (BPutRecordToPeers rk len pb (dec_exp ec) (hq_of qtag qn) ps upd)
+  | 4 => let* rk := pN in let* qtag := pN in let* qn := pN in let* t := p_key in pret (BGetRecord rk t (hq_of qtag qn))
+  | 5 => let* rk := pN in let* t := p_key in pret (BGetProviders rk t)
+  | 6 => let* rk := pN in let* qtag := pN in let* qn := pN in let* t := p_key in pret (BStartProviding rk t (hq_of qtag qn))
+  | 7 => let* rk := pN in let* t := p_key in pret (BStopProviding rk t)
+  | 8 => let* rk := pN in let* len := pN in let* pb := pN in let* ec := pN in pret (BStoreRecord rk len pb (dec_exp ec))
+  | _ => pfail
+  end.
+
+Definition p_hgop : parser hgop :=
+  let* tag := pN in
+  match tag with
+  | 0 => let* tr := pBool in let* b := p_hbody in pret (GCall tr b)
+  | 1 => pret GPoll
+  | 2 => pret GWake
+  | 3 => pret GRecv
+  | 4 => let* rk := pN in let* wt := pN in let* t := p_key in pret (GFire rk wt t)
+  | 5 => pret GKill
+  | _ => pfail
+  end.
+
+Definition decode_hcase (l : list N) : option hcase :=
+  match l with
+  | tag :: r => if tag =? HANDLE_TAG
+                then pall (let* cap := pN in let* lk := p_key in let* ops := plist p_hgop in pret (mkHC cap lk ops)) r
+                else None
+  | [] => None
+  end.
+
+Definition HLOCAL : N := 99.
+Definition hwc (k : hcase) : wcfg :=
+  mkWC (mkG 20 V.gen.Consts.PARALLELISM_FACTOR HLOCAL BIG) [(HLOCAL, hc_lkey k)] [] 20
+       (V.C17.Model.mkCfg C_MAX_RECORDS C_MAX_RECORD_SIZE
+                          V.gen.Consts.DEFAULT_MAX_PROVIDER_KEYS V.gen.Consts.DEFAULT_MAX_PROVIDER_ADDRESSES
+                          V.gen.Consts.DEFAULT_MAX_PROVIDERS_PER_KEY C_PROVIDER_TTL)
+       C_RECORD_TTL true true C_REFRESH 0.
+
+(* the drain loop: serve the queries that have an action until none has *)
+Fixpoint drain (fuel : nat) (wc : wcfg) (w : world) : world * list out :=
+  match fuel with
+  | O => (w, [])
+  | S f =>
+      match find (fun x : N * qstate => has_action (now (w_st w)) (snd x)) (eng (w_st w)) with
+      | Some x =>
+          let '(w1, o, _) := cstep wc w (UEv (EServe (fst x))) in
+          let '(w2, o2) := drain f wc w1 in (w2, o ++ o2)
+      | None => (w, [])
+      end
+  end.
+
+Definition do_event (wc : wcfg) (w : world) (u : uev) : world * list out :=
+  let '(w1, o, _) := cstep wc w u in
+  let '(w2, o2) := drain 64 wc w1 in (w2, o ++ o2).
+
+(* the loop runs until it waits: every command in the channel, in order *)
+Fixpoint take_all (fuel : nat) (wc : wcfg) (h : hstate) (w : world) : hstate * world * list out * N :=
+  match fuel with
+  | O => (h, w, [], 0)
+  | S f =>
+      match hrecv h with
+      | (h1, Some c) =>
+          let '(w1, o) := do_event wc w (h2u c) in
+          let '(h2, w2, o2, n) := take_all f wc h1 w1 in (h2, w2, o ++ o2, n + 1)
+      | (_, None) => (h, w, [], 0)
+      end
+  end.
+
+Definition enc_hres (r : hres) : list N :=
+  match r with
+  | RErr => [0; 0]
+  | ROk None => [1; 0]
+  | ROk (Some q) => [2; q]
+  | RWait _ => [3; 0]
+  end.
+
+Fixpoint hrun_trace (wc : wcfg) (h : hstate) (w : world) (evq : list out) (ops : list hgop) : list N :=
+  match ops with
+  | [] => []
+  | GCall tr b :: t =>
+      if method_exists tr (body_kind b)
+      then let '(h1, r) := hcall h tr b in enc_hres r ++ hrun_trace wc h1 w evq t
+      else [9]
+  | GPoll :: t =>
+      let '(h1, w1, o, n) := take_all 64 wc h w in
+      n :: dump_store wc w1 ++ hrun_trace wc h1 w1 (evq ++ filter is_event o) t
+  | GWake :: t =>
+      let '(h1, moved) := hwake h in
+      (if moved
+       then 1 :: enc_hres (ROk (match h_park h with Some c => cmd_id c | None => None end))
+       else [0]) ++ hrun_trace wc h1 w evq t
+  | GRecv :: t =>
+      match evq with
+      | [] => 0 :: hrun_trace wc h w evq t
+      | o :: r => 1 :: enc_out o ++ hrun_trace wc h w r t
+      end
+  | GFire rk wt tg :: t =>
+      (* OFire: the store branch yields RefreshProvider (the key is still provided); the id is the counter's *)
+      match fire1 wc (age (w_ks w) wt) rk (lrank wc tg) with
+      | Some (_, Some _) =>
+          let q := h_next h in
+          let h1 := mkH (q + 1) (h_chan h) (h_cap h) (h_closed h) (h_park h) in
+          let '(w1, o) := do_event wc w (UFire q rk wt tg) in
+          q :: dump_store wc w1 ++ hrun_trace wc h1 w1 (evq ++ filter is_event o) t
+      | _ => [8]
+      end
+  | GKill :: t =>
+      (* the receiver is gone: what was queued is never taken, a waiting sender is released with an error *)
+      7 :: hrun_trace wc (mkH (h_next h) [] (h_cap h) true None) w evq t
+  end.
+
+Definition run_hcase (k : hcase) : list N :=
+  let wc := hwc k in
+  4 :: hrun_trace wc (h0 (N.to_nat (hc_cap k))) (w0 wc [] 256) [] (hc_ops k).
+
+(* ---- the oracle of the handle stream, on the trace alone ---- *)
+(* per op: what the trace says *)
+Inductive hobs :=
+| HOCall (code q : N) | HOPoll (n : N) | HOWake (moved : bool) (code q : N) | HORecv (o : option out) | HOFire (q : N)
+| HOKill.
+
+Definition p_store_dump : parser unit :=
+  let* _ := plist p_five in
+  let* _ := plist (let* _ := pN in let* _ := plist p_four in pret tt) in
+  let* _ := plist p_pair in let* _ := pN in pret tt.
+
+Fixpoint p_hobs (ops : list hgop) : parser (list hobs) :=
+  match ops with
+  | [] => pret []
+  | GCall _ _ :: t => let* c := pN in let* q := pN in let* r := p_hobs t in pret (HOCall c q :: r)
+  | GPoll :: t => let* n := pN in let* _ := p_store_dump in let* r := p_hobs t in pret (HOPoll n :: r)
+  | GWake :: t =>
+      let* m := pBool in
+      if m then let* c := pN in let* q := pN in let* r := p_hobs t in pret (HOWake true c q :: r)
+      else let* r := p_hobs t in pret (HOWake false 0 0 :: r)
+  | GRecv :: t =>
+      let* f := pBool in
+      if f then let* o := p_out in let* r := p_hobs t in pret (HORecv (Some o) :: r)
+      else let* r := p_hobs t in pret (HORecv None :: r)
+  | GFire _ _ _ :: t => let* q := pN in let* _ := p_store_dump in let* r := p_hobs t in pret (HOFire q :: r)
+  | GKill :: t => let* _ := pN in let* r := p_hobs t in pret (HOKill :: r)
+  end.
+
+(* the ids the user was given (Ok(id), at once or when the waiting method completed) and the ids of refreshes *)
+Definition given_ids (l : list hobs) : list N :=
+  flat_map (fun x => match x with
+                     | HOCall 2 q => [q]
+                     | HOWake true 2 q => [q]
+                     | HOFire q => [q]
+                     | _ => []
+                     end) l.
+Definition received (l : list hobs) : list out :=
+  flat_map (fun x => match x with HORecv (Some o) => [o] | _ => [] end) l.
+
+(* the case ends drained: the last three ops are poll (nothing taken), wake (nobody waits), recv (nothing) *)
+Fixpoint ends_drained (l : list hobs) : bool :=
+  match l with
+  | [HOPoll 0; HOWake false _ _; HORecv None] => true
+  | _ :: t => ends_drained t
+  | [] => false
+  end.
+
+Definition prop_ok_h (k : hcase) (t : list N) : bool :=
+  match t with
+  | 4 :: r =>
+      match pall (p_hobs (hc_ops k)) r with
+      | Some obs =>
+          let ids := given_ids obs in
+          let outs := received obs in
+          (* never two terminal events for one id, none for an id nobody was given: in particular none for the
+             id a failed try_ method burnt *)
+          forallb (fun q => Nat.leb (count_terms q outs) 1) ids &&
+          forallb (fun o => match term_of o with Some q => nmem q ids | None => true end) outs &&
+          (* once everything is drained, every operation the user was given an id for has reported — as long
+             as the loop lives: when the node has shut the loop down nothing is owed any more *)
+          (if ends_drained obs && negb (existsb (fun x => match x with HOKill => true | _ => false end) obs)
+           then forallb (fun q => Nat.eqb (count_terms q outs) 1) ids else true)
+      | None => false
+      end
+  | _ => false
+  end.
+
+Definition prop_ok1 (c t : list N) : bool :=
   match decode_case c with
   | Some k =>
       if negb (match k_keys k with [] => true | _ => false end)
@@ -730,5 +1007,17 @@ Definition prop_ok (c t : list N) : bool :=
       else match decode_trace_b t with Some grs => prop_ok_b k grs | None => false end
   | None => true
   end.
+
+Definition is_hcase (l : list N) : bool := match l with tag :: _ => tag =? HANDLE_TAG | [] => false end.
+
+Definition run_case (l : list N) : list N :=
+  if is_hcase l
+  then match decode_hcase l with Some k => run_hcase k | None => [0] end
+  else run_case1 l.
+
+Definition prop_ok (c t : list N) : bool :=
+  if is_hcase c
+  then match decode_hcase c with Some k => prop_ok_h k t | None => true end
+  else prop_ok1 c t.
 
 Definition known_class (c t : list N) : N := 0.
